@@ -121,6 +121,13 @@ var specs = map[string]*propSpec{
 		runs:        []runSpec{{engine: "sid", qBatches: 16, qCases: 2, tBatches: 50, tCases: 4}},
 		guards:      []guard{{"sid.dropped", 1000, "discard rows"}, {"sid.answered", 300, "answered rows"}},
 	},
+	"C15": {
+		level: "exploration",
+		rule: "full decision table giaddr {0, routable, link-local, broadcast} x ciaddr {same} x broadcast flag x reply {OFFER, ACK, NAK produced by a plugin} x yiaddr {0, assigned} x listener {bound to ve0, unbound} x arrival interface {ve0, vf0} = 768 cells, each with fresh random addresses/MAC/xid, 3 (quick) / 12 (thorough) repetitions, inside a private network namespace with two veth pairs; UDP replies observed at the server's WriteTo (destination, port, IP_PKTINFO ifindex), link-level unicasts observed as real frames sniffed on the veth peers (which link, destination MAC, destination IP, UDP ports, payload). Oracle: the RFC 2131 section 4.1 cascade written as an independent table. Distinct by (chain, cell)",
+		assumptions: assume("hardware-address length 6 on the link-level path (an Ethernet frame cannot carry other lengths)", "needs CAP_NET_ADMIN to create the namespace; without it the check is inconclusive"),
+		runs:        []runSpec{{engine: "addr4", netns: true, parallel: 8, qBatches: 3, qCases: 8, tBatches: 12, tCases: 8}},
+		guards:      []guard{{"addr4.rows.l2", 40, "link-level rows"}, {"addr4.rows.udp_pinned", 300, "pinned rows"}, {"addr4.rows.udp", 1000, "udp rows"}},
+	},
 	"C17": {
 		level: "exploration",
 		rule: "each case is one option plugin with an argument vector from its accepted grammar (1-4 addresses, masks /1-/32, MTU 68-65535, durations, 1-4 domains with labels up to 63 bytes, 1-4 routes incl. /0 and /32, tftp/http/https/ftp URLs with and without params), hosted alone in a fresh server process, and 48 requests (DISCOVER/REQUEST or SOLICIT/REQUEST/RENEW/INFORMATION-REQUEST; option 55 / ORO = random subsets of the relevant codes in random order, or absent; option 116 present or not; yiaddr assigned by an earlier handler or not; option 51 already set or not). Differential oracle: reply with the plugin vs reply of the same chain without it must differ exactly by the table in model/opts.go (value encoded independently from the RFCs, present once, untouched otherwise, chain continues/stops/drops as stated). Non-trivial = every (configuration, request) pair evaluated; distinct by (plugin, args, request list, flags)",
